@@ -1457,8 +1457,12 @@ class FileSet:
         try:
             # Maybe there is a file with exact this timestamp?
             path = self.get_filename(timestamp, )
-            if self.file_system.isfile(path):
-                return self.get_info(path)
+            # This short cut must not bypass the filters and the excluded
+            # files or periods that find() applies:
+            if filters is None and self.file_system.isfile(path):
+                file_info = self.get_info(path)
+                if not self.is_excluded(file_info):
+                    return file_info
         except (UnknownPlaceholderError, UnfilledPlaceholderError):
             pass
 
